@@ -183,8 +183,6 @@ theorem accrue_brwIdx (cfg : Cfg) (s s' : St) (d : Denom) (now : Int) (phi : Dec
   simp only at h
   split at h
   · cases h
-  split at h
-  · cases h
     refine ⟨fun e he => upd_other _ _ _ _ he, ?_, ?_⟩
     · simp only [upd_same, Option.getD_some]; exact Int.le_refl _
     · simp only [upd_same, Option.getD_some]; exact hb0
@@ -197,26 +195,21 @@ theorem accrue_brwIdx (cfg : Cfg) (s s' : St) (d : Denom) (now : Int) (phi : Dec
   · simp only [upd_same, Option.getD_some]; exact hge
   · simp only [upd_same, Option.getD_some]; omega
 
-theorem supplyFactor_ge_one (newInterest cash borrows reserves : Int) (hi : 0 ≤ newInterest)
-    (hres : reserves ≤ cash + borrows) : P ≤ (supplyFactor newInterest cash borrows reserves).m := by
+theorem supplyFactor_ge_one (newInterest cash borrows reserves : Int) (hi : 0 ≤ newInterest) :
+    P ≤ (supplyFactor newInterest cash borrows reserves).m := by
   unfold supplyFactor
   simp only
   split
   · simp [Dec.one]
   · rename_i hne
-    have ht : 0 < (((Dec.ofInt cash).add (Dec.ofInt borrows)).sub (Dec.ofInt reserves)).m := by
-      unfold Dec.sub Dec.add Dec.ofInt at hne ⊢
-      simp only at hne ⊢
-      have : (cash + borrows - reserves) * P = cash * P + borrows * P - reserves * P := by ring
-      have h2 : 0 ≤ (cash + borrows - reserves) * P := Int.mul_nonneg (by omega) (by decide)
-      omega
+    have ht : 0 < (((Dec.ofInt cash).add (Dec.ofInt borrows)).sub (Dec.ofInt reserves)).m := by omega
     have hq := quo_nonneg (Dec.ofInt newInterest) _ (by unfold Dec.ofInt; exact Int.mul_nonneg hi (by decide)) ht
     have hadd : ∀ x : Dec, (x.add Dec.one).m = x.m + P := fun x => rfl
     rw [hadd]; omega
 
-/-- `AccrueInterest` does not lower the supply index while reserves ≤ cash + borrows -/
+/-- `AccrueInterest` does not lower the supply index -/
 theorem accrue_supIdx (cfg : Cfg) (s s' : St) (d : Denom) (now : Int) (phi : Dec) (apyPos : Bool)
-    (h0 : ∀ v, s.supIdx d = some v → 0 ≤ v) (hres : s.reserves d ≤ s.cash d + s.borrowed d)
+    (h0 : ∀ v, s.supIdx d = some v → 0 ≤ v)
     (h : accrue cfg s d now phi apyPos = .ok s') :
     (∀ e, e ≠ d → s'.supIdx e = s.supIdx e) ∧
     (s.supIdx d).getD P ≤ (s'.supIdx d).getD P ∧ (s.supIdx d).getD 0 ≤ (s'.supIdx d).getD 0 := by
@@ -238,8 +231,6 @@ theorem accrue_supIdx (cfg : Cfg) (s s' : St) (d : Denom) (now : Int) (phi : Dec
   simp only at h
   split at h
   · cases h
-  split at h
-  · cases h
     refine ⟨fun e he => upd_other _ _ _ _ he, ?_, ?_⟩
     · simp only [upd_same, Option.getD_some]; exact Int.le_refl _
     · simp only [upd_same, Option.getD_some]; exact hb0
@@ -250,7 +241,7 @@ theorem accrue_supIdx (cfg : Cfg) (s s' : St) (d : Denom) (now : Int) (phi : Dec
   have hsn : 0 ≤ (phi.mul (Dec.ofInt (s.borrowed d))).truncateInt - s.borrowed d -
       ((Dec.ofInt ((phi.mul (Dec.ofInt (s.borrowed d))).truncateInt - s.borrowed d)).mul (cfg.mkt d).reserveFactor).truncateInt := by
     omega
-  have hf := supplyFactor_ge_one _ (s.cash d) (s.borrowed d) (s.reserves d) hsn hres
+  have hf := supplyFactor_ge_one _ (s.cash d) (s.borrowed d) (s.reserves d) hsn
   have hge : ∀ f : Dec, P ≤ f.m → (s.supIdx d).getD P ≤ (Dec.mul ⟨(s.supIdx d).getD P⟩ f).m := by
     intro f hf; unfold Dec.mul; exact chopRound_mul_ge_of_one_le _ _ hb hf
   have hge' := hge _ hf
@@ -271,8 +262,6 @@ theorem accrue_frame (cfg : Cfg) (s s' : St) (d : Denom) (now : Int) (phi : Dec)
   split at h
   · cases h; exact ⟨rfl, rfl, rfl, rfl, rfl, rfl, rfl⟩
   simp only at h
-  split at h
-  · cases h
   split at h
   · cases h; exact ⟨rfl, rfl, rfl, rfl, rfl, rfl, rfl⟩
   split at h
@@ -308,10 +297,10 @@ theorem reservesNew_bounds (i : Int) (rf : Dec) (hi : 0 ≤ i) (h0 : 0 ≤ rf.m)
   have h00 : tquo 0 P = 0 := by decide
   omega
 
-/-- `AccrueInterest` cannot panic unless cash + borrows = reserves (utilization divides by zero) -/
+/-- `AccrueInterest` cannot panic (factor ≥ 1, reserve factor in [0,1], borrowed total not negative) -/
 theorem accrue_no_panic (cfg : Cfg) (s : St) (d : Denom) (now : Int) (phi : Dec) (apyPos : Bool)
     (hphi : P ≤ phi.m) (hb : 0 ≤ s.borrowed d) (hrf0 : 0 ≤ (cfg.mkt d).reserveFactor.m)
-    (hrf1 : (cfg.mkt d).reserveFactor.m ≤ P) (htot : s.cash d + s.borrowed d - s.reserves d ≠ 0) :
+    (hrf1 : (cfg.mkt d).reserveFactor.m ≤ P) :
     accrue cfg s d now phi apyPos ≠ .panic := by
   intro h
   unfold accrue at h
@@ -321,7 +310,7 @@ theorem accrue_no_panic (cfg : Cfg) (s : St) (d : Denom) (now : Int) (phi : Dec)
   · cases h
   split at h
   · cases h
-  simp only [htot, ite_false] at h
+  simp only at h
   split at h
   · cases h
   split at h
